@@ -1,5 +1,6 @@
 import SciVerif.Lemmas.C16
 import SciVerif.Lemmas.C16b
+import SciVerif.Lemmas.C16c
 
 /-!
 # C16 — parse() returns only environments that satisfy every declared constraint
@@ -257,5 +258,219 @@ example : validateNode (fieldPrim exTbl (1/100000000) (1/1000000)) exNK = true :
   rcases ho with rfl | rfl <;> simp [register, fieldPrim_conv, convK, convA, fieldArith, exTbl, exNK]
 
 end Concrete
+
+/-! ## The `!condition` `{?} <op> literal [unit]` as a function of the final value
+
+`withNumCond P lt n c x ux` is the node `n` with final value `x ux` and with `Node.condition`
+COMPUTED by the model (`condNum`: the literal converted to the value's unit by `NumberType.convert`,
+then the comparison of `type_number.py`), no longer supplied from outside.  What is still a
+parameter: `re.match`, and conditions of any other shape (several comparisons, references to other
+nodes, string/boolean nodes) — these remain the `Option (Option Bool)` computed by the C18 model. -/
+
+/-- **Validation with a computed condition** (any primitives): a numeric node with the simple
+    condition `c` passes the loop exactly when dimensions, options and format hold AND the
+    condition function yields `true` on the final value. -/
+theorem C16_cond_node (P : Prim F) (lt : F → F → Bool) (n : Node F) (hs : n.Sane P)
+    (c : SimpleCond F) (x : F) (ux : Option String) :
+    validateNode P (withNumCond P lt n c x ux) = true ↔
+      dimsOK n.dims n.shape = true ∧
+      (n.options = [] ∨ ∃ o ∈ n.options, optHolds P n (.num x ux) o) ∧
+      condNum P lt c x ux = some true ∧ (n.format = none ∨ n.format = some true) := by
+  have hs' : (withNumCond P lt n c x ux).Sane P := hs
+  rw [C16_node P _ hs']
+  simp only [holds, withNumCond, Option.some.injEq, reduceCtorEq, false_or]
+  constructor
+  · rintro ⟨h1, h2, h3, h4⟩; exact ⟨h1, h2, h3, h4⟩
+  · rintro ⟨h1, h2, h3, h4⟩; exact ⟨h1, h2, h3, h4⟩
+
+section ConcreteCond
+variable {K : Type} [Field K] [LinearOrder K] [IsStrictOrderedRing K]
+
+/-- **What is compared**: with the literal written in unit `s` and the value in another unit `d`
+    of the same dimension, the condition compares `x` with `b · k_s / k_d`. -/
+theorem C16_cond_convert (tbl : String → Option (LinUnitK K)) (atol rtol : K) (op : CmpOp)
+    (s d : String) (xs yd : LinUnitK K) (b x : K) (hsd : s ≠ d) (hx : tbl s = some xs)
+    (hy : tbl d = some yd) (hd : xs.dims = yd.dims) :
+    condK tbl atol rtol ⟨op, b, some s⟩ x (some d) = some (cmpK atol rtol op x (b * xs.k / yd.k)) :=
+  condK_of_conv tbl atol rtol ⟨op, b, some s⟩ x _ (some d) (convK_lin tbl s d xs yd b hsd hx hy hd)
+
+/-- without a unit on one side, or with the same unit on both, the literal is compared as written -/
+theorem C16_cond_no_convert (tbl : String → Option (LinUnitK K)) (atol rtol : K) (op : CmpOp)
+    (u ux : Option String) (b x : K) (h : u = none ∨ ux = none ∨ u = ux) :
+    condK tbl atol rtol ⟨op, b, u⟩ x ux = some (cmpK atol rtol op x b) := by
+  apply condK_of_conv
+  show convK tbl u ux b = some b
+  rcases h with rfl | rfl | rfl
+  · cases ux <;> simp [convK, convA]
+  · cases u <;> simp [convK, convA]
+  · cases u <;> simp [convK, convA]
+
+/-- **Boundary theorem.**  For non-negative tolerances the condition `{?} <op> b s` holds on the
+    final value `x` (unit `d`) exactly when `x` lies in the set written with plain order relations
+    around `y = b · k_s / k_d`: `<`/`>` are strict and exact, `<=` is `x ≤ y + (atol + rtol·|y|)`,
+    `>=` is `y − (atol + rtol·|y|) ≤ x`, `==` the closed band, `!=` its complement. -/
+theorem C16_cond_boundary (tbl : String → Option (LinUnitK K)) (atol rtol : K) (ha : 0 ≤ atol)
+    (hr : 0 ≤ rtol) (c : SimpleCond K) (x y : K) (ux : Option String)
+    (hc : convK tbl c.unit ux c.lit = some y) :
+    condK tbl atol rtol c x ux = some true ↔ condAccepts atol rtol c.op x y := by
+  rw [condK_of_conv tbl atol rtol c x y ux hc, Option.some.injEq]
+  exact cmpK_accepts atol rtol ha hr c.op x y
+
+/-- `{?} <= b s` on a node in unit `d`: accepted iff `x < y` or `x` is tolerantly equal to `y`,
+    `y = b · k_s / k_d` — for ANY tolerances (also negative ones). -/
+theorem C16_cond_le (tbl : String → Option (LinUnitK K)) (atol rtol : K)
+    (s d : String) (xs yd : LinUnitK K) (b x : K) (hsd : s ≠ d) (hx : tbl s = some xs)
+    (hy : tbl d = some yd) (hd : xs.dims = yd.dims) :
+    condK tbl atol rtol ⟨.le, b, some s⟩ x (some d) = some true ↔
+      x < b * xs.k / yd.k ∨ iscloseK atol rtol x (b * xs.k / yd.k) = true := by
+  rw [C16_cond_convert tbl atol rtol .le s d xs yd b x hsd hx hy hd, Option.some.injEq]
+  simp [cmpK, cmpWith, ltK_iff]
+
+/-- the comparison can be read on either side of the conversion: for positive unit factors,
+    `x < b · k_s / k_d` (literal brought to the node's unit, what the code does) is the same as
+    `x · k_d / k_s < b` (value brought to the literal's unit). -/
+theorem C16_cond_lt_either_side (ks kd b x : K) (hs : 0 < ks) (hd : 0 < kd) :
+    x < b * ks / kd ↔ x * kd / ks < b := by
+  rw [lt_div_iff₀ hd, div_lt_iff₀ hs]
+
+/-- **Strict comparisons reject the boundary exactly**: `{?} < b s`, `{?} > b s` and `{?} != b s`
+    fail on the final value that equals the converted literal, for every magnitude, unit pair and
+    non-negative tolerance pair, so the validation loop raises whatever the other constraints say. -/
+theorem C16_cond_strict_rejects_boundary (tbl : String → Option (LinUnitK K)) (atol rtol : K)
+    (ha : 0 ≤ atol) (hr : 0 ≤ rtol) (n : Node K) (c : SimpleCond K) (x : K) (ux : Option String)
+    (hop : c.op = .lt ∨ c.op = .gt ∨ c.op = .ne)
+    (hc : convK tbl c.unit ux c.lit = some x) :
+    condK tbl atol rtol c x ux = some false ∧
+    validateNode (fieldPrim tbl atol rtol) (withNumCond (fieldPrim tbl atol rtol) ltK n c x ux) = false := by
+  have hval : condK tbl atol rtol c x ux = some false := by
+    rw [condK_of_conv tbl atol rtol c x x ux hc, Option.some.injEq]
+    cases hb : cmpK atol rtol c.op x x with
+    | false => rfl
+    | true =>
+      exfalso
+      have h := (cmpK_accepts atol rtol ha hr c.op x x).mp hb
+      have ht := tolK_nonneg atol rtol x ha hr
+      rcases hop with e | e | e <;> rw [e] at h <;> simp only [condAccepts] at h
+      · exact lt_irrefl _ h
+      · exact lt_irrefl _ h
+      · rcases h with h | h <;> linarith
+  refine ⟨hval, ?_⟩
+  have hcn : condNum (fieldPrim tbl atol rtol) ltK c x ux = some false := hval
+  unfold validateNode
+  simp only [withNumCond, hcn]
+  cases n.options.mapM (register (fieldPrim tbl atol rtol) _) with
+  | none => rfl
+  | some regs =>
+    simp only
+    split
+    · rfl
+    · split
+      · rfl
+      · simp
+
+/-- **Tolerant comparisons accept the boundary**: `<=`, `>=`, `==` hold on the final value that
+    equals the converted literal. -/
+theorem C16_cond_tolerant_accepts_boundary (tbl : String → Option (LinUnitK K)) (atol rtol : K)
+    (ha : 0 ≤ atol) (hr : 0 ≤ rtol) (c : SimpleCond K) (x : K) (ux : Option String)
+    (hop : c.op = .le ∨ c.op = .ge ∨ c.op = .eq)
+    (hc : convK tbl c.unit ux c.lit = some x) :
+    condK tbl atol rtol c x ux = some true := by
+  rw [C16_cond_boundary tbl atol rtol ha hr c x x ux hc]
+  have ht := tolK_nonneg atol rtol x ha hr
+  rcases hop with e | e | e <;> rw [e] <;> simp only [condAccepts]
+  · linarith
+  · linarith
+  · constructor <;> linarith
+
+/-- **Monotonicity**: acceptance by `<` / `<=` is downward closed in the final value, acceptance
+    by `>` / `>=` upward closed (any tolerances, any literal unit). -/
+theorem C16_cond_monotone (tbl : String → Option (LinUnitK K)) (atol rtol : K)
+    (c : SimpleCond K) (x x' : K) (ux : Option String)
+    (h : condK tbl atol rtol c x ux = some true) :
+    ((c.op = .lt ∨ c.op = .le) → x' ≤ x → condK tbl atol rtol c x' ux = some true) ∧
+    ((c.op = .gt ∨ c.op = .ge) → x ≤ x' → condK tbl atol rtol c x' ux = some true) := by
+  cases hcv : convK tbl c.unit ux c.lit with
+  | none => rw [condK_of_conv_none tbl atol rtol c x ux hcv] at h; cases h
+  | some y =>
+    rw [condK_of_conv tbl atol rtol c x y ux hcv, Option.some.injEq] at h
+    simp only [condK_of_conv tbl atol rtol c x' y ux hcv, Option.some.injEq]
+    constructor
+    · rintro (e | e) hle <;> rw [e] at h ⊢
+      · rw [cmpK_lt] at h ⊢; exact lt_of_le_of_lt hle h
+      · simp only [cmpK, cmpWith, Bool.or_eq_true, ltK_iff, iscloseK_iff_tol] at h ⊢
+        rcases h with h | ⟨h1, h2⟩
+        · exact Or.inl (lt_of_le_of_lt hle h)
+        · by_cases hxy : x' < y
+          · exact Or.inl hxy
+          · exact Or.inr ⟨by have := not_lt.mp hxy; linarith, le_trans hle h2⟩
+    · rintro (e | e) hle <;> rw [e] at h ⊢
+      · rw [cmpK_gt] at h ⊢; exact lt_of_lt_of_le h hle
+      · simp only [cmpK, cmpWith, Bool.or_eq_true, ltK_iff, iscloseK_iff_tol] at h ⊢
+        rcases h with h | ⟨h1, h2⟩
+        · exact Or.inl (lt_of_lt_of_le h hle)
+        · by_cases hxy : y < x'
+          · exact Or.inl hxy
+          · exact Or.inr ⟨le_trans h1 hle, by have := not_lt.mp hxy; linarith⟩
+
+/-- a literal in a unit of another dimension: the solver raises, the node is never accepted -/
+theorem C16_cond_other_dimension (tbl : String → Option (LinUnitK K)) (atol rtol : K) (n : Node K)
+    (op : CmpOp) (s d : String) (xs yd : LinUnitK K) (b x : K)
+    (hx : tbl s = some xs) (hy : tbl d = some yd) (hd : xs.dims ≠ yd.dims) :
+    validateNode (fieldPrim tbl atol rtol)
+      (withNumCond (fieldPrim tbl atol rtol) ltK n ⟨op, b, some s⟩ x (some d)) = false := by
+  have hcn : condNum (fieldPrim tbl atol rtol) ltK ⟨op, b, some s⟩ x (some d) = none :=
+    condK_of_conv_none tbl atol rtol ⟨op, b, some s⟩ x (some d) (convK_other_dim tbl s d xs yd b hx hy hd)
+  unfold validateNode
+  simp only [withNumCond, hcn]
+  cases n.options.mapM (register (fieldPrim tbl atol rtol) _) with
+  | none => rfl
+  | some regs =>
+    simp only
+    split
+    · rfl
+    · split
+      · rfl
+      · simp
+
+/-- **Whole node, `{?} <= b s`**: a sane float node in `d` without options and format and with
+    fitting dimensions is accepted by the validation loop exactly for the final values
+    `x ≤ y + (atol + rtol·|y|)`, `y = b · k_s / k_d`. -/
+theorem C16_cond_le_node (tbl : String → Option (LinUnitK K)) (atol rtol : K) (ha : 0 ≤ atol)
+    (hr : 0 ≤ rtol) (n : Node K) (hs : n.Sane (fieldPrim tbl atol rtol))
+    (s d : String) (xs yd : LinUnitK K) (b x : K) (hsd : s ≠ d) (hx : tbl s = some xs)
+    (hy : tbl d = some yd) (hd : xs.dims = yd.dims)
+    (hopt : n.options = []) (hfmt : n.format = none) (hdim : dimsOK n.dims n.shape = true) :
+    validateNode (fieldPrim tbl atol rtol)
+      (withNumCond (fieldPrim tbl atol rtol) ltK n ⟨.le, b, some s⟩ x (some d)) = true ↔
+      x ≤ b * xs.k / yd.k + (atol + rtol * |b * xs.k / yd.k|) := by
+  rw [C16_cond_node _ ltK n hs]
+  have hb := C16_cond_boundary tbl atol rtol ha hr ⟨.le, b, some s⟩ x _ (some d)
+    (convK_lin tbl s d xs yd b hsd hx hy hd)
+  simp only [condK, condAccepts, tolK] at hb
+  simp only [hdim, hopt, hfmt, true_and, true_or, and_true, hb]
+
+/-! Non-vacuity over `Rat` (table `exTbl`): a node in `cm` with `!condition ("{?} <= 2 m")` accepts
+    the final value `200 cm` (the boundary), with `{?} < 2 m` it rejects it, and `{?} <= 2 s` raises. -/
+def exNC : Node Rat := ⟨false, none, some "cm", true, [], none, false, none, [], []⟩
+example : exNC.Sane (fieldPrim exTbl (1/100000000) (1/1000000)) := by
+  refine ⟨by simp [exNC], by simp [exNC], ?_⟩
+  intro o ho; simp [exNC] at ho
+example : condK exTbl (1/100000000) (1/1000000) ⟨.le, 2, some "m"⟩ 200 (some "cm") = some true := by
+  refine C16_cond_tolerant_accepts_boundary exTbl _ _ (by norm_num) (by norm_num) _ _ _ (Or.inl rfl) ?_
+  show convK exTbl (some "m") (some "cm") 2 = some 200
+  rw [convK_lin exTbl "m" "cm" ⟨1, [1]⟩ ⟨1/100, [1]⟩ 2 (by decide) (by simp [exTbl]) (by simp [exTbl]) rfl]
+  norm_num
+example : validateNode (fieldPrim exTbl (1/100000000) (1/1000000))
+    (withNumCond (fieldPrim exTbl (1/100000000) (1/1000000)) ltK exNC ⟨.lt, 2, some "m"⟩ 200 (some "cm")) = false := by
+  refine (C16_cond_strict_rejects_boundary exTbl _ _ (by norm_num) (by norm_num) exNC _ _ _ (Or.inl rfl) ?_).2
+  show convK exTbl (some "m") (some "cm") 2 = some 200
+  rw [convK_lin exTbl "m" "cm" ⟨1, [1]⟩ ⟨1/100, [1]⟩ 2 (by decide) (by simp [exTbl]) (by simp [exTbl]) rfl]
+  norm_num
+example : validateNode (fieldPrim exTbl (1/100000000) (1/1000000))
+    (withNumCond (fieldPrim exTbl (1/100000000) (1/1000000)) ltK exNC ⟨.le, 2, some "s"⟩ 200 (some "cm")) = false :=
+  C16_cond_other_dimension exTbl _ _ exNC .le "s" "cm" ⟨1, [0, 0, 1]⟩ ⟨1/100, [1]⟩ 2 200
+    (by simp [exTbl]) (by simp [exTbl]) (by decide)
+
+end ConcreteCond
 
 end SciVerif.C16
